@@ -199,6 +199,18 @@ class Parser:
         if self.at("_"):
             self.next()
             return ("pwild",)
+        if self.at("["):
+            self.next()
+            if self.at("]"):
+                self.next()
+                return ("pslice_empty",)
+            if self.at(".."):
+                self.next()
+                self.expect(",")
+                sub = self.pat()
+                self.expect("]")
+                return ("pslice_last", sub)
+            raise TransError("slice pattern")
         if self.at("("):
             self.next()
             ps = []
@@ -503,6 +515,11 @@ class Parser:
             if self.at(";"):
                 self.next()
                 continue
+            if self.at("use"):
+                while not self.at(";"):
+                    self.next()
+                self.next()
+                continue
             if self.at("let"):
                 self.next()
                 p = self.pat()
@@ -764,6 +781,13 @@ ENUMS = {
 }
 
 
+# methods that are not translated but given a meaning directly (trusted, listed in DESIGN.md): structural equality
+# of local time types (the byte loop of TzAsciiStr::equal is exercised by the harness instead)
+EXTERN_METHODS = {
+    ("LocalTimeType", "equal"): ("(%s == %s)", ("bool",)),
+}
+
+
 def field_type(ft):
     if isinstance(ft, tuple):
         return ft
@@ -935,6 +959,10 @@ class Fn:
             return (self.value_block(e, env), self.ty_of(e, env))
         if k == "unreachable":
             return ("default", None)
+        if k == "getlast":
+            s, t = self.ex(e[1], env)
+            t = strip_ref(t) if t else None
+            return ("(List.getLast? %s)" % s, ("option", t[1]) if (t and t[0] == "slice") else None)
         raise TransError("expression %s" % k)
 
     def ty_of(self, e, env):
@@ -1089,6 +1117,11 @@ class Fn:
             return ("(%s.length : Int)" % s, ("usize",))
         if name == "is_empty":
             return ("%s.isEmpty" % s, ("bool",))
+        if name == "saturating_abs" and it:
+            return ("(Src.sat_%s (Int.natAbs %s : Int))" % (it, s), t)
+        if t and t[0] == "named" and (t[1], name) in EXTERN_METHODS:
+            fmt, rt = EXTERN_METHODS[(t[1], name)]
+            return (fmt % tuple([s] + a), rt)
         if not args and t and t[0] == "named" and t[1] in STRUCTS and name in STRUCTS[t[1]]:
             return self.field(s, t, name)
         # method of a translated type: T.name(self, args)
@@ -1495,6 +1528,8 @@ class Fn:
         if k == "if":
             c, _ = self.ex(e[1], env)
             return ("if", c, [("then", e[2], dict(env)), ("else", e[3], dict(env))])
+        if k in ("iflet", "match"):
+            e = self.slice_adapt(e)
         if k == "iflet":
             s, t = self.ex(e[2], env)
             env1 = dict(env)
@@ -1515,6 +1550,34 @@ class Fn:
                 arms.append((pt, self.with_post(post, body), env1))
             return ("match", s, arms)
         raise TransError("arms of %s" % k)
+
+    def slice_adapt(self, e):
+        """`[]` / `[.., x]` patterns: match on `List.getLast?` of the scrutinee (component)"""
+        def is_slice(p):
+            return p[0] in ("pslice_empty", "pslice_last")
+
+        def conv(p):
+            if p[0] == "pslice_empty":
+                return ("pctor", ["None"], [])
+            if p[0] == "pslice_last":
+                return ("pctor", ["Some"], [p[1]])
+            return p
+        if e[0] == "iflet":
+            pats, scrut = [e[1]], e[2]
+        else:
+            pats, scrut = [a[0] for a in e[2]], e[1]
+        if any(is_slice(p) for p in pats):
+            scrut2 = ("getlast", scrut)
+            pats2 = [conv(p) for p in pats]
+        elif scrut[0] == "tuple" and any(p[0] == "ptuple" and any(is_slice(x) for x in p[1]) for p in pats):
+            marks = [any(p[0] == "ptuple" and is_slice(p[1][i]) for p in pats) for i in range(len(scrut[1]))]
+            scrut2 = ("tuple", [("getlast", c) if m else c for c, m in zip(scrut[1], marks)])
+            pats2 = [("ptuple", [conv(x) for x in p[1]]) if p[0] == "ptuple" else p for p in pats]
+        else:
+            return e
+        if e[0] == "iflet":
+            return ("iflet", pats2[0], scrut2, e[3], e[4])
+        return ("match", scrut2, [(p2, a[1], a[2]) for p2, a in zip(pats2, e[2])])
 
     @staticmethod
     def with_post(post, body):
@@ -1676,8 +1739,11 @@ class Translator:
 
     def run(self):
         self.load_consts()
-        for rel, names in self.config["files"].items():
-            funcs, _ = parse_file(os.path.join(REPO, rel))
+        parsed = {}
+        for rel, names in self.config["groups"]:
+            if rel not in parsed:
+                parsed[rel] = parse_file(os.path.join(REPO, rel))
+            funcs, _ = parsed[rel]
             for q, cfg in names.items():
                 if q not in funcs:
                     raise TransError("%s: function %s not found" % (rel, q))
@@ -1706,20 +1772,20 @@ class Translator:
 
 
 CONFIG = {
-    "files": {
-        "src/utils/const_fns.rs": {
+    "groups": [
+        ("src/utils/const_fns.rs", {
             "cmp": {}, "min": {}, "try_into_i32": {}, "try_into_i64": {}, "copied": {},
             "binary_search_i64": {"fuel": {"1": "slice.len() + 1"}},
-        },
-        "src/datetime/mod.rs": {
+        }),
+        ("src/datetime/mod.rs", {
             "is_leap_year": {}, "days_since_unix_epoch": {}, "unix_time": {}, "week_day": {}, "year_day": {},
             "nanoseconds_since_unix_epoch": {}, "total_nanoseconds_to_timespec": {}, "check_date_time_inputs": {},
             "UtcDateTime.check_unix_time": {}, "UtcDateTime.new": {},
             "UtcDateTime.from_timespec": {"fuel": {"1": "DAY_IN_MONTHS_LEAP_YEAR_FROM_MARCH.len() + 1"}},
             "UtcDateTime.from_total_nanoseconds": {}, "UtcDateTime.unix_time": {},
             "DateTime.new": {}, "DateTime.from_timespec_and_local": {}, "DateTime.from_total_nanoseconds_and_local": {},
-        },
-        "src/timezone/rule.rs": {
+        }),
+        ("src/timezone/rule.rs", {
             "Julian1WithoutLeap.new": {}, "Julian1WithoutLeap.transition_date": {}, "Julian1WithoutLeap.compute_check_infos": {},
             "Julian0WithLeap.new": {}, "Julian0WithLeap.transition_date": {}, "Julian0WithLeap.compute_check_infos": {},
             "MonthWeekDay.new": {}, "MonthWeekDay.transition_date": {}, "MonthWeekDay.compute_check_infos": {},
@@ -1727,8 +1793,26 @@ CONFIG = {
             "check_two_julian_days": {}, "check_month_week_day_and_julian_day": {}, "check_two_month_week_days": {},
             "check_dst_transition_rules_consistency": {},
             "AlternateTime.new": {}, "AlternateTime.find_local_time_type": {}, "TransitionRule.find_local_time_type": {},
-        },
-    }
+        }),
+        ("src/timezone/mod.rs", {
+            "Transition.unix_leap_time": {}, "LeapSecond.unix_leap_time": {},
+        }),
+        ("src/utils/const_fns.rs", {
+            "binary_search_transitions": {"fuel": {"1": "slice.len() + 1"}},
+            "binary_search_leap_seconds": {"fuel": {"1": "slice.len() + 1"}},
+        }),
+        ("src/timezone/mod.rs", {
+            "TimeZoneRef.unix_time_to_unix_leap_time": {"fuel": {"1": "self.leap_seconds.len() + 1"}},
+            "TimeZoneRef.unix_leap_time_to_unix_time": {},
+            "TimeZoneRef.find_local_time_type": {},
+            "TimeZoneRef.new_unchecked": {},
+            "TimeZoneRef.check_inputs": {"fuel": {"1": "self.transitions.len() + 1", "2": "self.leap_seconds.len() + 1"}},
+            "TimeZoneRef.new": {},
+        }),
+        ("src/datetime/mod.rs", {
+            "DateTime.from_timespec": {}, "DateTime.from_total_nanoseconds": {}, "DateTime.project": {}, "UtcDateTime.project": {},
+        }),
+    ]
 }
 
 
